@@ -115,6 +115,25 @@ func serializationPanics(meta *gen.Meta) int {
 				report(tr, fmt.Sprintf("the next request was answered %d %v", st, err), b)
 			}
 		}
+		// the same two-step history on one goroutine, many times (the POST transport's parameter objects are pooled per
+		// processor: the request after the failed one is then handed the very object the failed one used)
+		if at == 1 {
+			direct := func(body string) (int, string) {
+				req := httptest.NewRequest("POST", "/query", strings.NewReader(body))
+				req.Header.Set("Content-Type", "application/json")
+				rec := httptest.NewRecorder()
+				srv.ServeHTTP(rec, req)
+				return rec.Code, rec.Body.String()
+			}
+			for rep := 0; rep < 40; rep++ {
+				n++
+				_, _ = direct(`{"query":"query Boom($v: Int) { a(v: $v) }","operationName":"Boom","variables":{"v":7},"extensions":{"x":1}}`)
+				if st, b := direct(`{"query":"{ a }"}`); st != 200 || !strings.Contains(b, `"a":1`) {
+					report("POST application/json", fmt.Sprintf("repetition %d on one goroutine: the request after the failed one was answered %d", rep, st), []byte(b))
+					break
+				}
+			}
+		}
 		// websocket, both subprotocols: an error for the operation, then the operation ends; the connection lives on
 		for _, proto := range []string{"graphql-ws", "graphql-transport-ws"} {
 			n++
